@@ -105,7 +105,7 @@ theorem gcdPrim_spec (a b : Nat) :
     have ha : 0 < a := by omega
     have hb : 0 < b := by omega
     simp only []
-    rw [gcd_odd_parts ha hb]
+    rw [gcd_odd_parts ha hb, tz_or ha hb]
     obtain ⟨oa, _, ha2, ha3, hapos, _⟩ := odd_part ha
     obtain ⟨ob, _, hb2, hb3, hbpos, _⟩ := odd_part hb
     rw [ha3, hb3]
